@@ -609,7 +609,7 @@ func cmdRelock(args []string) {
 
 func isSafetyKind(k string) bool {
 	switch k {
-	case "nilderef", "idx", "nilmap", "typeassert", "div0", "nopanic", "makelen":
+	case "nilderef", "idx", "nilmap", "typeassert", "div0", "nopanic", "makelen", "appendalias":
 		return true
 	}
 	return false
